@@ -19,9 +19,10 @@ DayClauses(i) ==
   IN
   [ civil   |-> Valid(e.y, e.m, e.d) /\ e.j = JDN(e.y, e.m, e.d),
     weekday |-> e.w = Weekday(e.j),
-    routesW |-> e.w2 = e.w /\ e.w3 = e.w,
+    routesW |-> e.w2 = e.w /\ e.w3 = e.w /\ e.w5 \in {-2, e.w},
     anchor  |-> e.p = PillarOf(e.j),
-    routesP |-> e.p2 = e.p /\ e.p3 = e.p /\ e.p4 = e.p,
+    (* p5, p6, w5: through the previous day's lunar day stepped by one (-2: first day of a segment) *)
+    routesP |-> e.p2 = e.p /\ e.p3 = e.p /\ e.p4 = e.p /\ e.p5 \in {-2, e.p} /\ e.p6 \in {-2, e.p},
     stem    |-> e.p >= 0 => (e.ps = StemOf(e.p) /\ e.pb = BranchOf(e.p)),
     tickW   |-> HasPrev(i) => (TickJdn(p, e) => TickWeek(p, e)),
     tickP   |-> HasPrev(i) => (TickJdn(p, e) => TickPillar(p, e))
